@@ -104,7 +104,8 @@ def scenario_case(sc):
         for r in st:
             ct = sc["containers"][r["cid"]]
             reqs.append({"cmd": r["cmd"], "cid": r["cid"], "pod": ct["pod"], "ifname": ct["ifname"],
-                         "args": ";".join(req_args(sc, r["cid"])), "fail_add": r.get("fa", []), "fail_del": r.get("fd", [])})
+                         "args": ";".join(req_args(sc, r["cid"])), "fail_add": r.get("fa", []), "fail_del": r.get("fd", []),
+                         "netns_gone": bool(r.get("nsgone"))})
         steps.append({"reqs": reqs})
     return {"conf": sc["conf"], "confdir": sc.get("confdir", []), "pods": pods, "steps": steps}
 
@@ -241,7 +242,7 @@ def scenario_exprs(sc, o):
                 rest = {k: v for k, v in sd.items() if k != "prevResult"}
                 if statics.get(sd.get("tag")) != rest:
                     problems.append("plugin received a configuration that is not the static one of network %r" % sd.get("tag"))
-                if rec.get("netns") != "/proc/self/ns/net":
+                if rec.get("netns") != ("" if r.get("nsgone") else "/proc/self/ns/net"):
                     problems.append("CNI_NETNS was not passed through")
             es = clist(centry(rec) for rec in recs)
             ok = res["class"] == "ok"
@@ -450,7 +451,8 @@ def gen_scenario(rng, ctx):
             if rng.random() < 0.5:
                 st.append({"cmd": "ADD", "cid": c, "fa": rand_fails(rng, 4, 0.2), "fd": rand_fails(rng, 4, 0.35)})
             else:
-                st.append({"cmd": "DEL", "cid": c, "fd": rand_fails(rng, 4, 0.3)})
+                # (a third of the DELs arrive with an empty CNI_NETNS: the sandbox's network namespace is gone already)
+                st.append(dict({"cmd": "DEL", "cid": c, "fd": rand_fails(rng, 4, 0.3)}, **({"nsgone": True} if rng.random() < 0.33 else {})))
         steps.append(st)
     return {"conf": conf, "confdir": confdir, "pods": pods, "containers": containers, "steps": steps}
 
@@ -504,12 +506,14 @@ def exhaustive_scenarios(rng, ctx):
             if form in ("json", "default") or n <= 2:
                 # DEL: every failure pattern after a complete ADD, then retries
                 for fd in pats:
-                    steps = [[{"cmd": "ADD", "cid": "cid0", "fa": [], "fd": []}],
-                             [{"cmd": "DEL", "cid": "cid0", "fd": list(fd)}],
-                             [{"cmd": "DEL", "cid": "cid0", "fd": rand_fails(rng, n)}],
-                             [{"cmd": "DEL", "cid": "cid0", "fd": []}], [{"cmd": "DEL", "cid": "cid0", "fd": []}]]
-                    out.append(dict(base, steps=steps))
-                    ctx.dist("exhaustive:del-pattern")
+                    for gone in (False, True):
+                        # (gone: the failing DEL and its retry arrive with an empty CNI_NETNS)
+                        steps = [[{"cmd": "ADD", "cid": "cid0", "fa": [], "fd": []}],
+                                 [dict({"cmd": "DEL", "cid": "cid0", "fd": list(fd)}, **({"nsgone": True} if gone else {}))],
+                                 [dict({"cmd": "DEL", "cid": "cid0", "fd": rand_fails(rng, n)}, **({"nsgone": True} if gone else {}))],
+                                 [{"cmd": "DEL", "cid": "cid0", "fd": []}], [{"cmd": "DEL", "cid": "cid0", "fd": []}]]
+                        out.append(dict(base, steps=steps))
+                        ctx.dist("exhaustive:del-pattern" + ("-netns-gone" if gone else ""))
     return out
 
 
